@@ -38,12 +38,15 @@ ExposeTab == <<
   E(8443, 0,    "TCP", TRUE,  <<>>) >>                \* 15 a second global TCP port
 ExposeKinds == KRange(ExposeTab)
 
-\* cpu in millicpu, memory and storage in bytes; all below 2^30 (TLC integers)
-SizeTab == << [cpu |-> 100,  mem |-> 134217728, sto |-> 536870912],
-              [cpu |-> 10,   mem |-> 1048576,   sto |-> 5242880],
-              [cpu |-> 1500, mem |-> 536870913, sto |-> 1073741823],
-              [cpu |-> 15,   mem |-> 1000001,   sto |-> 7],
-              [cpu |-> 1,    mem |-> 1,         sto |-> 1] >>
+\* quantities are <<hi, lo>> = hi * 2^20 + lo (KubePolicy): cpu in millicpu, memory and storage in bytes
+SizeTab == << [cpu |-> <<0, 100>>,    mem |-> <<128, 0>>,       sto |-> <<512, 0>>],
+              [cpu |-> <<0, 10>>,     mem |-> <<1, 0>>,         sto |-> <<5, 0>>],
+              [cpu |-> <<0, 1500>>,   mem |-> <<512, 1>>,       sto |-> <<1023, 1048575>>],
+              [cpu |-> <<0, 15>>,     mem |-> <<0, 1000001>>,   sto |-> <<0, 7>>],
+              [cpu |-> <<0, 1>>,      mem |-> <<0, 1>>,         sto |-> <<0, 1>>],
+              [cpu |-> <<0, 4000>>,   mem |-> <<4096, 0>>,      sto |-> <<102400, 1>>],        \* 4 GiB = 2^32, 100 GiB + 1
+              [cpu |-> <<0, 250>>,    mem |-> <<2048, 0>>,      sto |-> <<2047, 1048575>>],   \* 2^31, 2^31 - 1
+              [cpu |-> <<0, 100000>>, mem |-> <<65536, 5>>,     sto |-> <<4095, 1048575>>] >> \* 64 GiB + 5, 2^32 - 1
 LevelTab   == << <<1, 1>>, <<2, 1>>, <<3, 1>>, <<3, 2>>, <<1, 2>> >>
 RuntimeTab == << "", "none", "gvisor" >>
 Domain     == "apps.example.com"
@@ -57,6 +60,7 @@ Svc(name, np, pol, exps, cnt, size) ==
   [name |-> name, np |-> np, pol |-> pol, count |-> cnt, cpu |-> size.cpu, mem |-> size.mem, sto |-> size.sto, exposes |-> exps]
 Web(exps, cnt, size) == Svc("web", "web-np", "akash-web-np", exps, cnt, size)
 Db(exps, cnt, size)  == Svc("db", "db-np", "akash-db-np", exps, cnt, size)
+Api(exps, cnt, size) == Svc("api", "api-np", "akash-api-np", exps, cnt, size)
 Settings(lc, lm, ls, np, rt, static) ==
   [cpu |-> LevelTab[lc], mem |-> LevelTab[lm], sto |-> LevelTab[ls], netpol |-> np, runtime |-> RuntimeTab[rt],
    static |-> static, domain |-> Domain]
@@ -74,7 +78,7 @@ SliceA == {In("A", BgL, <<R(<<Web(x, BgCount, SizeTab[BgSize])>>, BgSettings(np,
              x \in ExpLists(MaxExpA), np \in BOOLEAN, st \in BOOLEAN}
 SliceB == {In("B", BgL, <<R(<<Web(BgExp, 1 + (sz % 2), SizeTab[sz])>>, Settings(lc, lm, ls, TRUE, rt, BgStatic))>>) :
              sz \in SizeIdx, lc \in LevelIdx, lm \in LevelIdx, ls \in LevelIdx, rt \in DOMAIN RuntimeTab}
-SliceC == {In("C", BgL, <<R(<<Web(x, BgCount, SizeTab[BgSize]), Db(y, 1, SizeTab[2])>>, BgSettings(np, BgStatic))>>) :
+SliceC == {In("C", BgL, <<R(<<Web(x, BgCount, SizeTab[BgSize]), Db(y, 1, SizeTab[(BgSize % Len(SizeTab)) + 1])>>, BgSettings(np, BgStatic))>>) :
              x \in ExpLists(MaxExpC1), y \in ExpLists(MaxExpC2), np \in BOOLEAN}
 
 \* slice D: manifest updates (second Deploy on the same lease): every ordered pair of groups, policies on;
@@ -89,7 +93,10 @@ GroupTab == << <<Web(<<>>, 1, SizeTab[1])>>,
                <<Web(<<ExposeTab[9]>>, 1, SizeTab[4]), Db(<<ExposeTab[2]>>, 1, SizeTab[4])>>,
                \* both services open node ports; web also has, internal only, the port number db exposes globally
                <<Web(<<ExposeTab[15], ExposeTab[14]>>, 1, SizeTab[1]), Db(<<ExposeTab[7]>>, 1, SizeTab[2])>>,
-               <<Web(<<ExposeTab[10]>>, 2, SizeTab[2]), Db(<<ExposeTab[8], ExposeTab[15]>>, 1, SizeTab[1])>> >>
+               <<Web(<<ExposeTab[10]>>, 2, SizeTab[2]), Db(<<ExposeTab[8], ExposeTab[15]>>, 1, SizeTab[1])>>,
+               \* three services
+               <<Web(<<ExposeTab[7]>>, 1, SizeTab[1]), Db(<<ExposeTab[10]>>, 1, SizeTab[2]), Api(<<ExposeTab[15], ExposeTab[1]>>, 2, SizeTab[6])>>,
+               <<Api(<<ExposeTab[8]>>, 1, SizeTab[7]), Web(<<ExposeTab[4]>>, 1, SizeTab[3]), Db(<<ExposeTab[15]>>, 1, SizeTab[8])>> >>
 GroupsD == {GroupTab[i] : i \in 1..MaxGroupsD}
 SliceD == {In("D", BgL, <<R(g1, BgSettings(TRUE, BgStatic)), R(g2, Settings(2, 1, 3, TRUE, BgRuntime, BgStatic))>>) : g1 \in GroupsD, g2 \in GroupsD}
      \cup {In("D", BgL, <<R(g, BgSettings(n1, BgStatic)), R(g, Settings(1, 2, 1, n2, 3, ~BgStatic))>>) : g \in GroupsD, n1 \in BOOLEAN, n2 \in BOOLEAN}
